@@ -1,6 +1,7 @@
 import GrcovModel.Drv.Merge
 import GrcovModel.Drv.Lcov
 import GrcovModel.Drv.Pipeline
+import GrcovModel.Drv.Confine
 open Grcov.Drv
 
 def step (line : String) : String :=
@@ -11,6 +12,7 @@ def step (line : String) : String :=
   | "utf8lossy" :: args => handleUtf8Lossy args
   | "pipe.replay" :: args => handlePipeReplay args
   | "pipe.stuck" :: args => handlePipeStuck args
+  | "confine.enclosed" :: args => handleEnclosed args
   | _ => "bad-op"
 
 partial def loop (h : IO.FS.Stream) (out : IO.FS.Stream) : IO Unit := do
